@@ -49,6 +49,13 @@ def main() -> int:
 
         ctx = Ctx()
         digest = ctx.repo.digest()
+        extra["source_view"] = {
+            "canonical_form": not os.environ.get("VERIF_NO_CANON"),
+            "helpers_inlined": ctx.repo.inlined,
+            "helper_log": ctx.repo.inline_log[:20],
+            "note": "rules read the canonical syntax tree (sa/canon.py); functions absent from "
+                    "sa/known_functions.txt are inlined into their callers first (sa/inline.py)",
+        }
         rule_fns = rules_for(prop)
         if not rule_fns:
             raise AnalysisError(f"no rules registered for {prop}")
